@@ -226,7 +226,7 @@ def r2_history_index_is_state_index(ctx, rid):
             raise AnalysisError(f"{rid}: add_var_hist call without keyword `{need}`")
     # enclosing loops
     loops = [a for a in _anc(call) if isinstance(a, ast.For)]
-    outer = [l for l in loops if "_state_var_hist" in ast.unparse(l.iter)]
+    outer = [l for l in loops if any(is_attr_of(n_, selfn, "_state_var_hist") for n_ in ast.walk(l.iter))]
     if not outer:
         raise AnalysisError(f"{rid}: add_var_hist is not inside a loop over _state_var_hist")
     outer = outer[0]
@@ -403,7 +403,7 @@ def r2_history_index_is_state_index(ctx, rid):
         for x in seen_:
             for n_ in ast.walk(x):
                 if isinstance(n_, ast.Subscript) and isinstance(n_.slice, ast.Constant) and isinstance(n_.slice.value, int) \
-                        and not isinstance(n_.slice.value, bool) and "args" in ast.unparse(n_.value):
+                        and not isinstance(n_.slice.value, bool) and _is_arg_list(n_.value):
                     out.add(n_.slice.value)
         return out
     vi, di = arg_indices(bound["var"]), arg_indices(bound["delay"])
@@ -415,6 +415,15 @@ def r2_history_index_is_state_index(ctx, rid):
     else:
         ctx.violation(rid, h0, gc[0], f"past(x, d) replacement requests the history of (argument {sorted(vi)}, delay from argument {sorted(di)}) "
                                       f"instead of (argument 0, argument 1)", facts, label="past(x, d) -> history of (x, d)")
+
+
+def _is_arg_list(e) -> bool:
+    """`<expr>.args` or a local list of (rendered) arguments; inliner suffixes (`name__helper_k`) are ignored."""
+    if isinstance(e, ast.Attribute):
+        return e.attr == "args"
+    if isinstance(e, ast.Name):
+        return "args" in re.sub(r"__\w+?_\d+$", "", e.id)
+    return False
 
 
 def _anc(n):
@@ -459,10 +468,12 @@ def r4_history_time_units(ctx, rid):
     # scipy DDE wrappers: solout(t, y_) forwards both unchanged to hist.update; rhs passes *args (incl. hist) through
     n = 0
     for cls in S.backend_classes(ctx):
-        f = cls.methods.get("_solve_scipy_dde")
-        if f is None:
+        f0_ = cls.methods.get("_solve_scipy_dde")
+        if f0_ is None:
             continue
         n += 1
+        from engine.inline import inlined as _inl
+        f = _inl(ctx, f0_)          # the dopri5 driver (callback + output loop) may live in a private helper shared by backends
         # roles: the callback registered with set_solout(...), the wrapper that calls the vector field `func`
         reg = [c for c in walk_shallow(f.node) if isinstance(c, ast.Call) and call_name(c) == "set_solout" and c.args]
         so = f.nested.get(reg[0].args[0].id) if reg and isinstance(reg[0].args[0], ast.Name) else None
